@@ -18,6 +18,7 @@ type Clause struct {
 	LoopAnchor string // `loop @callee ...`: the innermost loop whose body calls callee (robust against reordering of loops)
 	Callee string // sink: callee key
 	Ord    int    // sink: ordinal (0 = all)
+	Optional bool // sink with #?: all sites, and it is fine if there is none
 	Text   string
 	Expr   CExpr
 	Label  string // optional label: `ensures [name] E`
@@ -395,7 +396,8 @@ func (cs *ContractSet) loadFile(path, pkg string, external bool) error {
 			}
 			ordText := after[:j]
 			ord := 0
-			if ordText != "*" {
+			optional := ordText == "?" // every site, possibly none: a restriction on what MAY be called, not stale when nothing is
+			if ordText != "*" && !optional {
 				ord, err = strconv.Atoi(ordText)
 				if err != nil {
 					return fmt.Errorf("%s:%d: bad ordinal", rl.file, rl.line)
@@ -407,6 +409,7 @@ func (cs *ContractSet) loadFile(path, pkg string, external bool) error {
 			}
 			cl := mkClause("sink", strings.TrimSpace(strings.TrimPrefix(tail, "requires")))
 			cl.Callee, cl.Ord = callee, ord
+			cl.Optional = optional
 			cur.Sinks = append(cur.Sinks, cl)
 		case "cover": // cover return | cover call KEY #n
 			cl := &Clause{Kind: "cover", Text: rest, File: rl.file, Line: rl.line}
